@@ -219,6 +219,30 @@ theorem legM_mi_formOk (c : Model.X86.Ctx) (ctx : Spec.X86.Ctx) (rule : Rule) (o
   have : opReg &&& 7#32 = opReg := by bv_decide
   rw [this]
 
+/-- legacy shape [MEM, register not encoded] with a digit -/
+theorem legM_mreg_formOk (c : Model.X86.Ctx) (ctx : Spec.X86.Ctx) (rule : Rule) (opcode opReg xb : BitVec 32) (m : Mem) (mo : MemOp) (pfx : List (BitVec 8))
+    (mb : BitVec 32 → BitVec 8) (sib : Option (BitVec 8)) (ds : List (BitVec 8))
+    (AF : AddrFormL c ctx m mo pfx xb mb sib ds) (f0 f3 : FormOp) (d : Nat) (k1 : RegKind) (i1 : Nat) (imm1 : BitVec 64) (isz : Nat)
+    (hm64 : ctx.mode64 = true) (hmode : (rule.modes &&& 2 != 0) = true) (hopc : opcode &&& 0xF780FC00#32 = 0#32) (ho : opReg < 8#32)
+    (R : LegRuleMD rule isz ((opcode >>> 21) &&& 3#32).toNat d) (hd : d < 8 → opReg.toNat = d) (A : LegAgree rule opcode)
+    (hf0 : f0.role = .rm)
+    (hic : ∀ p : Parsed, p.imm = emitImmediate imm1 isz → allOk (opConds ctx rule p 0 f3 (.reg k1 i1)).1 = true)
+    (hal : alignOps rule.oszEff rule.ops [.mem mo, .reg k1 i1] = some [(f0, some (.mem mo)), (f3, some (.reg k1 i1))]) :
+    ∃ bytes, emitX86M c opcode 0#32 opReg m imm1 isz = .ok bytes ∧ formOk ctx rule [.mem mo, .reg k1 i1] {} bytes = true := by
+  have ho16 : opReg < 16#32 := by bv_decide
+  rw [AF.emit opcode opReg imm1 isz ho16 hopc]
+  refine ⟨_, rfl, ?_⟩
+  have ho7 : opReg &&& 7#32 < 8#32 := by bv_decide
+  have hpplt : ((opcode >>> 21) &&& 3#32).toNat < 4 := R.hpplt
+  obtain ⟨s1, s2, s3, s4⟩ := AF.shape _ ho7
+  obtain ⟨p, hp, P, hR, F, hvk, hi⟩ := legM_parsed rule opcode opReg xb pfx _ sib ds imm1 isz hopc ho16 AF.hxb R A (AF.hpl _ hpplt) s1 s2 s3 s4
+  have hc := AF.chk rule p _ _ ho7 hpplt F hvk
+  refine leg_mreg_mem_formOk ctx rule p _ _ _ _ d isz f0 f3 mo k1 i1 hm64 hmode R ?_ hf0 (hic p hi) (AF.hpc _ hpplt) AF.hvsib AF.hbc hal hp P hc
+  intro hd8
+  rw [s4, ← hd hd8]
+  have : opReg &&& 7#32 = opReg := by bv_decide
+  rw [this]
+
 /-- legacy shape [reg, MEM, imm8]: the bytes of `EmitX86M` satisfy the monitor -/
 theorem legM_rmi_formOk (c : Model.X86.Ctx) (ctx : Spec.X86.Ctx) (rule : Rule) (opcode opReg xb : BitVec 32) (m : Mem) (mo : MemOp) (pfx : List (BitVec 8))
     (mb : BitVec 32 → BitVec 8) (sib : Option (BitVec 8)) (ds : List (BitVec 8))
